@@ -51,9 +51,11 @@ def cmp_cblog(exp_log, obs_cb, diffs):
                 diffs.append("callback #%d: validation of %s saw %d values, expected %d" % (i + 1, e["o"], len(ov), len(ev)))
 
 
-def check_parse_result(exp, line, diffs, aspects, pol, clean=True):
+def check_parse_result(exp, line, diffs, aspects, pol, clean=True, base_out=0):
     """compare one parse's expected outcome with the driver's observation line"""
     st = exp["status"]
+    if line["out"] != base_out:
+        diffs.append(("stdout", "%d stray byte(s) on standard output" % (line["out"] - base_out)))
     if st == "unspec":
         return
     want_ret = 0 if st == "ok" else 1
@@ -89,8 +91,6 @@ def check_parse_result(exp, line, diffs, aspects, pol, clean=True):
             diffs.append(("freed", "user pointer released twice: %r" % dbl))
         if want != got:
             diffs.append(("freed", "pointers released during the call expected %s observed %s" % (want, got)))
-    if line["out"] != 0:
-        diffs.append(("stdout", "%d stray byte(s) on standard output" % line["out"]))
 
 
 def ptrs_in(sec):
@@ -152,7 +152,7 @@ def replay(verdict, exe, res, aspects, pol=None, seed=0, renderings=("canonical"
         clean = True
         for p, line in zip(b["parses"], plines):
             diffs = []
-            check_parse_result(p["exp"], line, diffs, aspects, pol, clean)
+            check_parse_result(p["exp"], line, diffs, aspects, pol, clean, g["begin"]["out"])
             if p["exp"]["status"] != "ok":
                 clean = False
             if diffs:
